@@ -155,24 +155,27 @@ func gsvdResiduals(name string, a0, b0, u, v, q, zr mat, haveU, haveV, haveQ boo
 	return nil
 }
 
-// rankDefBranch re-keys failures on numerically rank-deficient inputs of
-// Dggsvp3, which has known defects there:
-//   - it passes iwork[i] = 0 to Dgeqp3, which in gonum means "leading column"
-//     (free columns are -1), so the "QR with column pivoting" never pivots; the
-//     rank is then read off a diagonal that is not monotone and non-negligible rows
-//     of B (or A11) are zeroed;
-//   - in the branch n-l > k, Q is updated with Dorm2r instead of Dormr2 (wrong Q,
-//     or a panic "insufficient length of a"), and the clean-up loop writes
-//     a[j] = 0 instead of r[j] = 0.
-// k < 0 means "outputs unknown" (the call panicked).
+// rankDefBranch models the recorded defect ggsvp3/rank-deficient-input narrowly.
+// Dggsvp3 passes iwork[i] = 0 to Dgeqp3, which in gonum means "leading column"
+// (free columns are -1), so the "QR with column pivoting" never pivots. That is
+// harmless as long as B and the block A11 have full numerical rank (all diagonal
+// entries of the unpivoted R exceed the tolerance, l = min(p,n), k = min(m,n-l));
+// structurally wide stacks m+p < n with generic A and B belong to that class and
+// are judged in full. When B or A11 is numerically rank deficient the rank is
+// read off a diagonal that is not monotone and non-negligible rows are zeroed, so
+// the relations that tie the outputs to the inputs (residuals, norms, and the
+// non-singularity of A12/B13/R) fail. Only those are re-keyed; orthogonality of
+// U, V, Q, the zero structure, alpha/beta, index ranges, untouched operands and
+// panics are still reported under their own keys.
 func rankDefBranch(f *vk.Failure, m, p, n, k, l int, wantq bool) *vk.Failure {
-	if f == nil {
-		return nil
+	if f == nil || k < 0 {
+		return f
 	}
-	if k >= 0 && (l < min(p, n) || k < min(m, n-l) || (k >= 1 && k+l < n)) {
-		return vk.Failf("rank-deficient-input", "[%s] %s", f.Key, f.Msg)
+	if !(l < min(p, n) || k < min(m, n-l)) {
+		return f
 	}
-	if k < 0 && wantq && f.Key == "valid-call-panics" && strings.Contains(f.Msg, "insufficient length of a") {
+	switch f.Key {
+	case "a-residual", "b-residual", "a-norm", "b-norm", "a12-singular", "b13-singular", "r-singular":
 		return vk.Failf("rank-deficient-input", "[%s] %s", f.Key, f.Msg)
 	}
 	return f
@@ -242,6 +245,9 @@ func checkGgsvd3Inner(c kase, kOut, lOut *int) *vk.Failure {
 	if k < 0 || l < 0 || k+l > n || l > p || k+l > m+p {
 		return vk.Failf("k-l-range", "%s m=%d p=%d n=%d: k=%d l=%d", name, m, p, n, k, l)
 	}
+	if k+l < n && !(l < min(p, n) || k < min(m, n-l)) {
+		vk.Class("ggsvd3:wide-stack(k+l<n),full-row-rank")
+	}
 	switch {
 	case k+l == n && m-k-l >= 0:
 		vk.Class("ggsvd3:full-rank,m>=k+l")
@@ -299,7 +305,12 @@ func checkGgsvd3Inner(c kase, kOut, lOut *int) *vk.Failure {
 
 func drawGsvdDims(t *rapid.T, c *kase) {
 	c.N = dimN(t, "n", 40, 0, 1, 2, 10, 16)
-	switch rapid.IntRange(0, 4).Draw(t, "shape") {
+	switch rapid.IntRange(0, 5).Draw(t, "shape") {
+	case 5: // structurally wide stack, m+p < n: the extra RQ step (n-l > k) runs
+		// although A and B have full row rank
+		c.N = max(c.N, 3)
+		c.M = rapid.IntRange(0, c.N-1).Draw(t, "m")
+		c.P = rapid.IntRange(0, c.N-1-c.M).Draw(t, "p")
 	case 0:
 		c.M, c.P = c.N, c.N
 	case 1: // m < k+l is possible
@@ -384,9 +395,12 @@ func checkGgsvp3Inner(c kase, kOut, lOut *int) *vk.Failure {
 	if k < 0 || l < 0 || k+l > n || l > p || k > m {
 		return vk.Failf("k-l-range", "%s m=%d p=%d n=%d: k=%d l=%d", name, m, p, n, k, l)
 	}
-	if k+l < n {
-		vk.Class("ggsvp3:rank-deficient")
-	} else {
+	switch {
+	case l < min(p, n) || k < min(m, n-l):
+		vk.Class("ggsvp3:numerically-rank-deficient")
+	case k+l < n:
+		vk.Class("ggsvp3:wide-stack(k+l<n),full-row-rank")
+	default:
 		vk.Class("ggsvp3:full-rank")
 	}
 	if m-k-l < 0 {
